@@ -106,18 +106,18 @@ theorem tagsOf_single (ws : Bool) (m : InMsg) : tagsOf ws [m] = wrap ws (tagWith
 theorem wrapAll_snoc (ws : Bool) (l : List Bytes) (b : Bytes) : wrapAll ws (l ++ [b]) = wrapAll ws l ++ wrap ws b := by
   simp [wrapAll]
 
-theorem flvOutcome_id (key : Bool) (g : GopCache.T) (tag : Bytes) (n : Nat) (x : Sub) :
-    (flvOutcome key g tag n x).2.id = x.id ∧ (flvOutcome key g tag n x).2.ws = x.ws := by
+theorem flvOutcome_id (key isHdr : Bool) (g : GopCache.T) (tag : Bytes) (n : Nat) (x : Sub) :
+    (flvOutcome key isHdr g tag n x).2.id = x.id ∧ (flvOutcome key isHdr g tag n x).2.ws = x.ws := by
   unfold flvOutcome
   by_cases h1 : x.fresh = true <;> by_cases h2 : GopCache.gopCount g > 0 <;> by_cases h3 : x.waitKey = true <;>
-    by_cases h4 : key = true <;> simp [h1, h2, h3, h4]
+    by_cases h4 : key = true <;> by_cases h5 : isHdr = true <;> simp [h1, h2, h3, h4, h5]
 
 theorem flvOne_inv (m : InMsg) (s : St) (id : Nat) (todo : List Nat) (l : List InMsg)
     (hI : FInvN s (id :: todo)) (hid : id ∉ todo) (hl : s.pubLog = l ++ [m]) :
-    FInvN (flvOne (Classify.isVideoKeyNalu m.typ m.payload) (tagWithoutSdf m) s id) todo ∧
-    (flvOne (Classify.isVideoKeyNalu m.typ m.payload) (tagWithoutSdf m) s id).pubLog = s.pubLog ∧
-    (flvOne (Classify.isVideoKeyNalu m.typ m.payload) (tagWithoutSdf m) s id).flvSubs.map (·.id) = s.flvSubs.map (·.id) ∧
-    (flvOne (Classify.isVideoKeyNalu m.typ m.payload) (tagWithoutSdf m) s id).flvGop = s.flvGop := by
+    FInvN (flvOne (Classify.isVideoKeyNalu m.typ m.payload) (isHeaderMsg m) (tagWithoutSdf m) s id) todo ∧
+    (flvOne (Classify.isVideoKeyNalu m.typ m.payload) (isHeaderMsg m) (tagWithoutSdf m) s id).pubLog = s.pubLog ∧
+    (flvOne (Classify.isVideoKeyNalu m.typ m.payload) (isHeaderMsg m) (tagWithoutSdf m) s id).flvSubs.map (·.id) = s.flvSubs.map (·.id) ∧
+    (flvOne (Classify.isVideoKeyNalu m.typ m.payload) (isHeaderMsg m) (tagWithoutSdf m) s id).flvGop = s.flvGop := by
   have hlen : s.pubLog.length = l.length + 1 := by rw [hl]; simp
   unfold flvOne
   cases hg : s.getFlv id with
@@ -135,9 +135,9 @@ theorem flvOne_inv (m : InMsg) (s : St) (id : Nat) (todo : List Nat) (l : List I
     obtain ⟨hx, hxid⟩ := getFlv_mem hg
     subst hxid
     simp only
-    generalize ho : flvOutcome (Classify.isVideoKeyNalu m.typ m.payload) s.flvGop (tagWithoutSdf m) (s.pubLog.length - 1) x = o
+    generalize ho : flvOutcome (Classify.isVideoKeyNalu m.typ m.payload) (isHeaderMsg m) s.flvGop (tagWithoutSdf m) (s.pubLog.length - 1) x = o
     obtain ⟨f1, f2, f3, f4⟩ := writeFlvAll_fields x o.1 s
-    have hoid : o.2.id = x.id ∧ o.2.ws = x.ws := by rw [← ho]; exact flvOutcome_id _ _ _ _ _
+    have hoid : o.2.id = x.id ∧ o.2.ws = x.ws := by rw [← ho]; exact flvOutcome_id _ _ _ _ _ _
     have hbytes : ∀ k i, ((s.writeFlvAll x o.1).modFlv x.id (fun _ => o.2)).bytes k i =
         s.bytes k i ++ (if k = fkind x ∧ i = x.id then wrapAll x.ws o.1 else []) := by
       intro k i
@@ -210,14 +210,24 @@ theorem flvOne_inv (m : InMsg) (s : St) (id : Nat) (todo : List Nat) (l : List I
                 refine ⟨rfl, Nat.le_succ _, ?_⟩
                 rw [hfb, hpl', hl, hsl, hb0, wrapAll_snoc, tagsOf_single, List.append_assoc]
             · have hk' : Classify.isVideoKeyNalu m.typ m.payload = false := by simpa using hk
-              have e : o = (prologue s.flvGop,
-                  { y with fresh := false, waitKey := true, pro := prologue s.flvGop, start := none }) := by
-                rw [← ho]; simp [flvOutcome, hf, hw, hk']
-              subst e
-              constructor
-              · intro h; cases h
-              · intro _ _; exact ⟨rfl, by rw [hfb, hb0]⟩
-              · intro _ a ha; cases ha
+              by_cases hh : isHeaderMsg m = true
+              · have e : o = (prologue s.flvGop ++ [tagWithoutSdf m],
+                    { y with fresh := false, waitKey := true, pro := prologue s.flvGop ++ [tagWithoutSdf m], start := none }) := by
+                  rw [← ho]; simp [flvOutcome, hf, hw, hk', hh]
+                subst e
+                constructor
+                · intro h; cases h
+                · intro _ _; exact ⟨rfl, by rw [hfb, hb0]⟩
+                · intro _ a ha; cases ha
+              · have hh' : isHeaderMsg m = false := by simpa using hh
+                have e : o = (prologue s.flvGop,
+                    { y with fresh := false, waitKey := true, pro := prologue s.flvGop, start := none }) := by
+                  rw [← ho]; simp [flvOutcome, hf, hw, hk', hh']
+                subst e
+                constructor
+                · intro h; cases h
+                · intro _ _; exact ⟨rfl, by rw [hfb, hb0]⟩
+                · intro _ a ha; cases ha
           · have hw' : (if GopCache.gopCount s.flvGop > 0 then false else y.waitKey) = false := by
               cases h : (if GopCache.gopCount s.flvGop > 0 then false else y.waitKey) <;> simp_all
             have e : o = (prologue s.flvGop ++ [tagWithoutSdf m],
@@ -250,13 +260,22 @@ theorem flvOne_inv (m : InMsg) (s : St) (id : Nat) (todo : List Nat) (l : List I
                 refine ⟨rfl, Nat.le_succ _, ?_⟩
                 rw [hfb, hpl', hl, hsl, hb0, tagsOf_single]; simp [wrapAll]
             · have hk' : Classify.isVideoKeyNalu m.typ m.payload = false := by simpa using hk
-              have e : o = ([], y) := by
-                rw [← ho]; simp [flvOutcome, hf', hw, hk']
-              subst e
-              constructor
-              · intro h; rw [hf'] at h; cases h
-              · intro _ _; exact ⟨hw, by rw [hfb, hb0]; simp [wrapAll]⟩
-              · intro _ a ha; rw [hstart] at ha; cases ha
+              by_cases hh : isHeaderMsg m = true
+              · have e : o = ([tagWithoutSdf m], { y with pro := y.pro ++ [tagWithoutSdf m] }) := by
+                  rw [← ho]; simp [flvOutcome, hf', hw, hk', hh]
+                subst e
+                constructor
+                · intro h; rw [hf'] at h; cases h
+                · intro _ _; exact ⟨hw, by rw [hfb, hb0, wrapAll_snoc]; simp [wrapAll]⟩
+                · intro _ a ha; rw [hstart] at ha; cases ha
+              · have hh' : isHeaderMsg m = false := by simpa using hh
+                have e : o = ([], y) := by
+                  rw [← ho]; simp [flvOutcome, hf', hw, hk', hh']
+                subst e
+                constructor
+                · intro h; rw [hf'] at h; cases h
+                · intro _ _; exact ⟨hw, by rw [hfb, hb0]; simp [wrapAll]⟩
+                · intro _ a ha; rw [hstart] at ha; cases ha
           · have hw' : y.waitKey = false := by simpa using hw
             have e : o = ([tagWithoutSdf m], y) := by
               rw [← ho]; simp [flvOutcome, hf', hw']
@@ -285,7 +304,7 @@ theorem flvOne_inv (m : InMsg) (s : St) (id : Nat) (todo : List Nat) (l : List I
 
 theorem flvLoop_fold_inv (m : InMsg) (l : List InMsg) : ∀ (ids : List Nat) (s : St), ids.Nodup →
     FInvN s ids → s.pubLog = l ++ [m] →
-    FInv (ids.foldl (flvOne (Classify.isVideoKeyNalu m.typ m.payload) (tagWithoutSdf m)) s) := by
+    FInv (ids.foldl (flvOne (Classify.isVideoKeyNalu m.typ m.payload) (isHeaderMsg m) (tagWithoutSdf m)) s) := by
   intro ids
   induction ids with
   | nil => intro s _ h _; exact h
@@ -337,7 +356,7 @@ theorem finv_forward (s : St) (m : InMsg) (hI : FInv s) (hR : Inv s) :
       rw [hfb, hb0, hp, slice_append_left _ _ _ _ (Nat.le_refl _)]
 
 theorem flvLoop_inv (s : St) (m : InMsg) (hI : FInv s) (hR : Inv s) :
-    FInv (flvLoop (Classify.isVideoKeyNalu m.typ m.payload) (tagWithoutSdf m) (forward s m)) := by
+    FInv (flvLoop (Classify.isVideoKeyNalu m.typ m.payload) (isHeaderMsg m) (tagWithoutSdf m) (forward s m)) := by
   obtain ⟨h1, hp, hf⟩ := finv_forward s m hI hR
   unfold flvLoop
   rw [hf]
@@ -363,7 +382,7 @@ theorem fbroadcast_inv (s : St) (m : InMsg) (hI : FInv s) (hR : Inv s) : FInv (b
   split
   · exact hI
   · simp only
-    obtain ⟨hR0, f0⟩ := rtmpLoop_inv (Classify.isVideoKeyNalu m.typ m.payload) s hR
+    obtain ⟨hR0, f0⟩ := rtmpLoop_inv (Classify.isVideoKeyNalu m.typ m.payload) (if isHeaderMsg m then some (chunksWithoutSdf m) else none) s hR
     have hI0 := finv_of_frame hI f0
     have h3 := flvLoop_inv _ m hI0 hR0
     have tr : ∀ (t : St), FInv t → ∀ (u : St),
@@ -577,7 +596,7 @@ theorem writeFlvAll_hasIn (sub : Sub) : ∀ (bs : List Bytes) (s : St), (s.write
   | nil => intro s; rfl
   | cons b bs ih => intro s; simp only [St.writeFlvAll, List.foldl_cons]; exact ih (s.writeFlv sub b)
 
-theorem flvLoop_hasIn (key : Bool) (tag : Bytes) (s : St) : (flvLoop key tag s).hasIn = s.hasIn := by
+theorem flvLoop_hasIn (key isHdr : Bool) (tag : Bytes) (s : St) : (flvLoop key isHdr tag s).hasIn = s.hasIn := by
   unfold flvLoop
   generalize s.flvSubs.map (·.id) = ids
   induction ids generalizing s with
@@ -604,8 +623,8 @@ theorem broadcast_hasIn (s : St) (m : InMsg) (hI : Inv s) : (broadcast s m).hasI
   split
   · rfl
   · simp only
-    obtain ⟨h0, f0⟩ := rtmpLoop_inv (Classify.isVideoKeyNalu m.typ m.payload) s hI
-    obtain ⟨_, _, _, _, _, _, fh, _⟩ := forward_frame (rtmpLoop (Classify.isVideoKeyNalu m.typ m.payload) s) m h0
+    obtain ⟨h0, f0⟩ := rtmpLoop_inv (Classify.isVideoKeyNalu m.typ m.payload) (if isHeaderMsg m then some (chunksWithoutSdf m) else none) s hI
+    obtain ⟨_, _, _, _, _, _, fh, _⟩ := forward_frame (rtmpLoop (Classify.isVideoKeyNalu m.typ m.payload) (if isHeaderMsg m then some (chunksWithoutSdf m) else none) s) m h0
     rw [(stage_hasIn _ m).2.2.2, (stage_hasIn _ m).2.2.1, (stage_hasIn _ m).2.1, (stage_hasIn _ m).1, flvLoop_hasIn, fh, f0.hasIn]
 
 theorem step_published (s : St) (e : Ev) (hI : Inv s) :
